@@ -109,6 +109,31 @@ func (w *Workspace) Build(kind, variant string) (string, error) {
 	return out, nil
 }
 
+// BuildMain builds a harness-owned main package of /verif (e.g. ./sut/e6grid)
+// against /repo with the overlay.
+func (w *Workspace) BuildMain(pkg, variant string) (string, error) {
+	w.mu.Lock()
+	defer w.mu.Unlock()
+	key := "main-" + strings.ReplaceAll(strings.Trim(pkg, "./"), "/", "_") + "-" + variant
+	if b, ok := w.bins[key]; ok {
+		return b, nil
+	}
+	out := filepath.Join(w.Dir, key)
+	args := []string{"build", "-tags", "verif", "-overlay", w.Overlay.OverlayJSON, "-o", out}
+	if variant == "race" {
+		args = append(args, "-race")
+	}
+	args = append(args, pkg)
+	cmd := exec.Command("go", args...)
+	cmd.Dir = VerifDir
+	cmd.Env = goEnv()
+	if b, err := cmd.CombinedOutput(); err != nil {
+		return "", fmt.Errorf("building %s failed: %v\n%s", key, err, b)
+	}
+	w.bins[key] = out
+	return out, nil
+}
+
 // GoTestBinary builds a test binary of a /verif package against /repo (E6).
 func (w *Workspace) GoTestBinary(pkg, variant string) (string, error) {
 	w.mu.Lock()
